@@ -28,6 +28,8 @@ inductive Val
   | cont (kind : CKind) (items : List (Str × Val))
   deriving Repr, Inhabited
 
+abbrev Items := List (Str × Val)
+
 inductive DecKind | pvl | odl | pds | omni
   deriving DecidableEq, Repr
 
